@@ -125,6 +125,13 @@ pub trait PrepOps {
     fn snapshot(&self) -> Snap;
     /// finalise: (address, length in elements, bytes of the final slice)
     fn commit(self: Box<Self>) -> (usize, usize, Vec<u8>);
+    /// map_in_place to the smaller element type of the table (u64 -> u32, [u8; 3] -> u8); None: no such mapping for this collection
+    fn map_smaller<'s>(self: Box<Self>) -> Option<Box<dyn PrepOps + 's>>
+    where
+        Self: 's,
+    {
+        None
+    }
 }
 
 /// a Display value that writes its pieces one `write_str` at a time
@@ -168,6 +175,10 @@ pub trait VecOps {
     fn bytes(&self) -> Vec<u8>;
     /// into_boxed_slice: (address, length in elements, bytes)
     fn into_slice(self: Box<Self>) -> (usize, usize, Vec<u8>);
+    /// splice(1..2, repeat(value).take(2^62 + 7)): Some(true) = it panicked (unwinding), Some(false) = it returned, None = not available
+    fn splice_huge(&mut self, _tag: u8) -> Option<bool> {
+        None
+    }
 }
 
 impl<'a, T: Elem, A: BumpAllocatorTypedScope<'a>> VecOps for BumpVec<T, A> {
@@ -205,6 +216,12 @@ impl<'a, T: Elem, A: BumpAllocatorTypedScope<'a>> VecOps for BumpVec<T, A> {
             other => panic!("unknown vector operation {other}"),
         }
         .map_err(|_| ())
+    }
+    fn splice_huge(&mut self, tag: u8) -> Option<bool> {
+        let r = std::panic::catch_unwind(std::panic::AssertUnwindSafe(|| {
+            self.splice(1..2, std::iter::repeat(T::make(tag)).take((1usize << 62) + 7));
+        }));
+        Some(r.is_err())
     }
     fn shrink_to_fit(&mut self) {
         BumpVec::shrink_to_fit(self)
@@ -294,33 +311,63 @@ impl<'a, T: Elem> VecOps for FixedBumpVec<'a, T> {
 
 pub trait Elem: Copy + 'static {
     fn make(tag: u8) -> Self;
+    /// the element type `map_in_place` maps to in the harness (itself: no mapping)
+    type Smaller: Elem;
+    fn shrink(self) -> Self::Smaller;
+    const MAPS: bool = false;
 }
 impl Elem for u8 {
+    type Smaller = u8;
+    fn shrink(self) -> u8 {
+        self
+    }
     fn make(t: u8) -> Self {
         t
     }
 }
 impl Elem for [u8; 3] {
+    type Smaller = u8;
+    fn shrink(self) -> u8 {
+        self[0]
+    }
+    const MAPS: bool = true;
     fn make(t: u8) -> Self {
         [t; 3]
     }
 }
 impl Elem for u16 {
+    type Smaller = u16;
+    fn shrink(self) -> u16 {
+        self
+    }
     fn make(t: u8) -> Self {
         u16::from_ne_bytes([t; 2])
     }
 }
 impl Elem for u32 {
+    type Smaller = u32;
+    fn shrink(self) -> u32 {
+        self
+    }
     fn make(t: u8) -> Self {
         u32::from_ne_bytes([t; 4])
     }
 }
 impl Elem for u64 {
+    type Smaller = u32;
+    fn shrink(self) -> u32 {
+        self as u32
+    }
+    const MAPS: bool = true;
     fn make(t: u8) -> Self {
         u64::from_ne_bytes([t; 8])
     }
 }
 impl Elem for [u64; 3] {
+    type Smaller = [u64; 3];
+    fn shrink(self) -> [u64; 3] {
+        self
+    }
     fn make(t: u8) -> Self {
         [u64::from_ne_bytes([t; 8]); 3]
     }
@@ -328,6 +375,10 @@ impl Elem for [u64; 3] {
 #[derive(Clone, Copy)]
 pub struct B24(pub [u8; 24]);
 impl Elem for B24 {
+    type Smaller = B24;
+    fn shrink(self) -> B24 {
+        self
+    }
     fn make(t: u8) -> Self {
         B24([t; 24])
     }
@@ -352,6 +403,10 @@ pub fn check_try_with_layouts() {
     assert_eq!(probe::<A32, u8>(), (64, 32, 32), "layout of Result<A32, u8>");
 }
 impl Elem for A32 {
+    type Smaller = A32;
+    fn shrink(self) -> A32 {
+        self
+    }
     fn make(t: u8) -> Self {
         A32([t; 32])
     }
@@ -1001,6 +1056,12 @@ where
         let ptr = b.into_raw();
         (v(ptr.cast::<u8>()), len, slice_bytes(ptr.cast::<T>().as_ptr(), len))
     }
+    fn map_smaller<'x>(self: Box<Self>) -> Option<Box<dyn PrepOps + 'x>>
+    where
+        Self: 'x,
+    {
+        if T::MAPS { Some(Box::new((*self).map_in_place(|e| e.shrink()))) } else { None }
+    }
 }
 
 impl<'s, 'a, T: Elem, A, const MA: usize, const UP: bool, const GA: bool, const DE: bool, const SH: bool, const MCS: usize> PrepOps
@@ -1123,6 +1184,28 @@ impl<'s, B: ScopeOps + BumpAllocatorCore> DynPrep<'s, B> {
 }
 
 impl<'s, B: ScopeOps + BumpAllocatorCore> PrepOps for DynPrep<'s, B> {
+    fn map_smaller<'x>(mut self: Box<Self>) -> Option<Box<dyn PrepOps + 'x>>
+    where
+        Self: 'x,
+    {
+        let nsz = match self.esz {
+            8 => 4,
+            3 => 1,
+            _ => return None,
+        };
+        if self.rev {
+            return None;
+        }
+        // the elements are rewritten from the start of the buffer; the capacity keeps the same bytes
+        let start = self.data_start();
+        for i in 0..self.len {
+            unsafe { std::ptr::write_bytes(region().real(start + i * nsz), self.tags[i], nsz) };
+        }
+        self.cap = self.cap * self.esz / nsz;
+        self.esz = nsz;
+        self.eal = nsz;
+        Some(self)
+    }
     fn push(&mut self, tag: u8) -> Result<(), ()> {
         if self.len == self.cap {
             let mnz = if self.esz == 1 { 8 } else if self.esz <= 1024 { 4 } else { 1 };
